@@ -188,6 +188,68 @@ def enum_map_sessions(depth, steps):
     return sessions
 
 
+def setup_map(m):
+    """ops that turn the initial map {37, 38, 39} into `m`"""
+    return ["remove %d" % c for c in (37, 38, 39) if c not in m]
+
+
+ALL_MAPS = [{37}, {38}, {39}, {37, 38}, {37, 39}, {38, 39}, {37, 38, 39}]
+EDITS = ["%s %d" % (o, c) for o in ("add", "remove") for c in (37, 38, 39)]
+
+
+def edit_sequences(depth, orders=None, second_add=False):
+    """every add/remove sequence up to `depth` + emptying the map (in every order) followed by every re-add"""
+    seqs = [list(q) for n in range(1, depth + 1) for q in itertools.product(EDITS, repeat=n)]
+    for order in (orders or list(itertools.permutations((37, 38, 39)))):
+        for c in (37, 38, 39):
+            seqs.append(["remove %d" % x for x in order] + ["add %d" % c])
+            if second_add:
+                seqs.append(["remove %d" % x for x in order] + ["add %d" % c, "add %d" % (37 + (c - 36) % 3)])
+    return seqs
+
+
+def map_after(m, seq):
+    m = set(m)
+    for o in seq:
+        k, c = o.split()
+        (m.add if k == "add" else m.discard)(int(c))
+    return m
+
+
+def enum_cursor_sessions(depth, steps, thorough=False):
+    """map edits at every cursor position.
+    (1) while advertising runs (variable map, auto start): every start map x after 1..3 PDUs (cursor on every
+        position of the event, incl. the wrap) x every edit sequence, then `steps` PDUs.  The cursor the edits
+        leave behind is observable only here since fix adv-02 (a restart selects the first channel);
+    (2) no_auto_start: the same edits after stop_advertising (PDU still pending / timed out), after
+        start_advertising( n ) ran out of PDUs in the middle of an event, and before the restart."""
+    sessions = []
+    seqs = edit_sequences(depth, second_add=thorough)
+    for m in ALL_MAPS:
+        for k in (1, 2, 3):
+            for seq in seqs:
+                if map_after(m, seq):
+                    sessions.append(["reset 2"] + setup_map(m) + ["llstart"] + ["timeout"] * (k - 1) + seq + ["timeout"] * steps)
+    short = edit_sequences(1, orders=None if thorough else [(39, 38, 37), (37, 38, 39)])
+    for m in ALL_MAPS:
+        for seq in short:
+            if not map_after(m, seq):
+                continue
+            pre = ["reset 1"] + setup_map(m) + ["llstart"]
+            for n in ((1, 2, 3, 4) if thorough else (1, 2, 3)):
+                # count exhausted after n PDUs (inside an event unless n is a multiple of the map size)
+                sessions.append(pre + ["startn %d" % n] + ["timeout"] * n + seq + ["start"] + ["timeout"] * steps)
+                if thorough or n == 2:
+                    sessions.append(pre + ["startn %d" % n] + ["timeout"] * n + seq + ["startn 2", "timeout", "timeout"] + seq[-1:] + ["start"] + ["timeout"] * 4)
+            for k in ((1, 2, 3) if thorough else (1, 2)):
+                # stop while the k-th PDU is pending; edit before / after that PDU timed out
+                sessions.append(pre + ["start"] + ["timeout"] * (k - 1) + ["stop", "timeout"] + seq + ["start"] + ["timeout"] * steps)
+                sessions.append(pre + ["start"] + ["timeout"] * (k - 1) + ["stop"] + seq + ["timeout", "start"] + ["timeout"] * steps)
+            # connection made and lost, map edited in between
+            sessions.append(pre + ["start", "timeout", "llstop"] + seq + ["llstart", "start"] + ["timeout"] * steps)
+    return sessions
+
+
 def monitor_c24(ops, outs):
     """independent oracle: the property statement evaluated on what the advertiser scheduled.
     Returns a list of (key, what, op_index)."""
@@ -198,6 +260,7 @@ def monitor_c24(ops, outs):
     interval = 100000 if var_int else fixed_ms * 1000
     budget = None if auto else 0      # PDUs the start/stop/count controls still permit (None = unbounded)
     prev = None                       # channel of the previous PDU of the running sequence of events
+    after_edit = False                # the channel map was edited while that sequence was running
 
     def name(m):
         return "-".join(str(c) for c in sorted(m))
@@ -207,11 +270,12 @@ def monitor_c24(ops, outs):
         kind = w[0]
         if out in ("bad-op",):
             continue
-        if kind == "add":
-            enabled.add(int(w[1]))
-            prev = None
-        elif kind == "remove":
-            enabled.discard(int(w[1]))
+        if kind in ("add", "remove"):
+            (enabled.add if kind == "add" else enabled.discard)(int(w[1]))
+            # an edit while a sequence of events is running ("not supported" by the documentation, but the
+            # property says "including maps changed at run time"): the PDU that follows only has to go to a
+            # channel that is enabled when it is scheduled; order is checked again from that PDU on
+            after_edit = after_edit or prev is not None
             prev = None
         elif kind == "interval":
             if 20 <= int(w[1]) <= 10240:
@@ -238,6 +302,13 @@ def monitor_c24(ops, outs):
                          "op %d `%s`: advertising PDU scheduled on disabled channel %d (enabled: %s)" % (k, op, ch, name(enabled)), k))
             prev = ch
             continue
+        if after_edit and kind not in START_OPS:
+            after_edit = False
+            if delay != 0 and not (interval <= delay <= interval + 10000):
+                hits.append(("C24:delay-out-of-range", "op %d `%s`: events separated by %d us, interval %d us" % (k, op, delay, interval), k))
+            prev = ch
+            continue
+        after_edit = False
         if kind in START_OPS:
             if delay != 0:
                 hits.append(("C24:start-delayed", "op %d `%s`: first PDU delayed by %d us" % (k, op, delay), k))
@@ -283,11 +354,16 @@ def run_c24(ctx, replay_path=None):
         sessions.append(gen_c24_session(ctx.rng, cfg, unsupported))
         monitored.append(not unsupported)
     enum = enum_map_sessions(4, 40) if ctx.thorough else enum_map_sessions(3, 12)
+    enum += enum_cursor_sessions(3, 8, True) if ctx.thorough else enum_cursor_sessions(2, 5)
     sessions += enum
     monitored += [True] * len(enum)
     res.exhaustive = True
     res.extra["exhaustive_small_scope"] = ("variable_advertising_channel_map: every add/remove sequence of length <= %d "
-                                           "ending in a non-empty map, then %d PDUs" % ((4, 40) if ctx.thorough else (3, 12)))
+                                           "ending in a non-empty map, then %d PDUs; map edits at every cursor position: 7 start maps x "
+                                           "after 1..3 PDUs of a running event x every edit sequence of length <= %d (+ emptying the map in "
+                                           "every order and re-adding) and, with no_auto_start, after stop / count exhaustion inside an "
+                                           "event / connection lost, before the restart"
+                                           % ((4, 40, 3) if ctx.thorough else (3, 12, 2)))
     impl, model, dis = ctx.run_pair(sessions, proj_sched)
     for d in dis:
         ops = ctx.shrink_disagreement(sessions[d["session"]], proj_sched) if len(res.disagreements) < 2 else sessions[d["session"]]
@@ -971,6 +1047,7 @@ PROPS = {
         theorems=["BluetoeModel.Adv.inv_reachable", "BluetoeModel.Adv.timeout_channel_successor",
                   "BluetoeModel.Adv.cycle_visits_enabled_ascending_once", "BluetoeModel.Adv.enabledIdxs_spec",
                   "BluetoeModel.Adv.map_change_selects_lowest", "BluetoeModel.Adv.start_on_lowest",
+                  "BluetoeModel.Adv.scheduled_channel_enabled",
                   "BluetoeModel.Adv.count_bounds_pdus", "BluetoeModel.Adv.startn_budget", "BluetoeModel.Adv.stop_silences"],
         witnesses=[],
         run=run_c24,
